@@ -12,7 +12,7 @@ CLAIMS = {
  'C05': ('Verus: (sound direction, END-TO-END) Matcher::process carries, per security, acquisitions less disposals to date rescaled by the splits that have taken effect (spec net_state/net_total, a fold over the date-ordered line list) and returns Ok only if that position is non-negative at the close of every day (covered_upto) - so a report is produced only when every sale is covered, whatever the 30-day rule matched (repair 364008a of defect F2). process_sell returns Err before any state change when the sale exceeds same-day availability + pool quantity; legs of an accepted sale sum to the quantity sold; an Err from conversion or from the matcher means no report (calculate).',
          'Completeness direction (covered ledgers are never refused, C05.complete), per refusal site of the matcher after the cost pre-pass: process_sell returns Ok whenever the sale is covered by same-day ledger + pool (no unmatched remainder is possible then); in Matcher::process a covered ledger (covered_upto over the whole list) makes every sale pass that check (INV_POS: same-day ledger + pool >= position >= quantity sold) and never trips the position check of repair 364008a; the reservation-overflow refusal is unreachable for every ledger; pooling and corporate actions never refuse. These are site-wise obligations, not one post-condition of process: the refusals of the pre-pass (non-positive split ratio, capital return larger than the cost - the statement\'s other obstacles) are not characterised. C05.sound is stated over the sorted-and-merged list preprocess returns (its per-(date, security, side) share totals are proved equal to the input\'s; that SPLIT lines pass through unchanged is not proved). CLI/MCP front-ends are A-ext.'),
  'C09': ('Verus frame clauses: every mutating matcher function changes ledgers/pools only at the transaction\'s own ticker; the look-ahead changes claims only at same-ticker buys in the window.',
-         'Frames of each step, plus the L3 corollary C09.l3_quantities (total and Same Day leg quantity of a security per day are unchanged by inserting or removing lines of another security); the full projection equality report(all) = (+) report(S) is not machine-checked; ticker case folding in parser/serde is A-ext.'),
+         'Frames of each step, plus the L3 corollaries C09.l3_quantities (total and Same Day leg quantity of a security per day are unchanged by inserting or removing lines of another security) and C09.l3_holding (so is its position, i.e. the closing Section 104 quantity that C02.closing proves the matcher returns - a simulation lemma between the folds over the two lists); the full projection equality report(all) = (+) report(S) is not machine-checked; ticker case folding in parser/serde is A-ext.'),
  'C10': ('Verus: SPLIT multiplies and UNSPLIT divides the pool quantity only (cost, ledgers, legs, other tickers untouched); look-ahead quantities are rescaled by the cumulative ratio of the splits dated from the disposal day up to, not including, the acquisition\'s day (repairs 218dd93 and 551d6d1) and costed in buy-time units.',
          'Per-step, plus the day loop of Matcher::process is proved to apply every SPLIT/UNSPLIT line of the day to the pool of its own security, in line order, after the day\'s sales and pooling (C10.applied: pool quantity == fold of ratio_effect over the day\'s lines); the rescaled-twin equivalence is relational (not decided); the pre-pass (compute_cost_offsets) has no split handling: see DESIGN F6.'),
  'C12': ('Verus: the 30-day look-ahead changes claims only at same-ticker purchases dated 1..30 days after the sale (fc_step), and stops reading at the first line beyond day 30; Kani: the break test fires only beyond day 30; the single-year window of the report selects exactly the dates of its tax year, so a later-dated disposal never enters an earlier year (C12.year_window: Kani harness and the Verus slice clauses shared with C07).',
